@@ -1,5 +1,145 @@
-(* Props/C16.v — placeholder while the correspondence is being brought up; replaced below *)
-From Xpl Require Import C16.Ext C16.Bridge.
+(* Props/C16.v — property C16: similar-example search returns exactly the k nearest cases.
+   Only statements, each closed by [exact]; proofs live in C16/Proofs.v (order facts: C16/SortX.v, Bridge.v).
+   Everything is stated for ANY [argsort] that returns a sorting permutation (any tie-breaking), every batch
+   size, every k, every N >= 1, every distance function and every projection. *)
+From Xpl Require Import C16.Spec C16.Proofs.
+Close Scope Qc_scope. Open Scope nat_scope.
+
+(* the executable (stable) argsort used to run the model satisfies the hypothesis of all theorems *)
+Theorem C16_argsort_stable_ok : argsort_ok argsort_stable.
+Proof. exact argsort_stable_ok. Qed.
+Print Assumptions C16_argsort_stable_ok.
+
+(* the running top-k merge: keeping only the k best of what was seen so far loses nothing *)
 Theorem C16_ksm_merge : forall k a b, ksm k (ksm k a ++ b) = ksm k (a ++ b).
 Proof. exact ksm_merge. Qed.
 Print Assumptions C16_ksm_merge.
+
+(* knn_distances: the distances kept by the batched running top-k (init k fills of +inf; per batch: concat,
+   argsort, keep k) are the first k elements of the sorted arrangement of ALL distances and k fills *)
+Theorem C16_knn_distances :
+  forall (C P : Type) argsort, argsort_ok argsort ->
+  forall k (key : C -> ext) (pay : nat -> nat -> C -> P) (fillp : P) B cases, 1 <= B ->
+    forall S, Sorted ext_le S -> Permutation S (map key cases ++ repeat Inf k) ->
+      map fst (topk argsort k key pay fillp (chunks B cases)) = firstn k S.
+Proof. intros C P argsort H k key pay fillp B cases HB S HS HP.
+  exact (topk_keys argsort H k key pay fillp B cases HB S (conj HS HP)). Qed.
+Print Assumptions C16_knn_distances.
+
+(* knn_indices_valid + knn_minimal: the result is the image of k slots T1; together with the left-out slots T2
+   they are exactly k fills and every case once (so every returned entry is a fill or case number i with index
+   (i / B, i mod B) and its own distance, and no case is returned twice); every left-out slot is at least as far
+   as every returned one *)
+Theorem C16_knn_structure :
+  forall (C P : Type) argsort, argsort_ok argsort ->
+  forall k (key : C -> ext) (pay : nat -> nat -> C -> P) (fillp : P) B, 1 <= B -> forall cases,
+  exists T1 T2 : list (@slot C),
+    Permutation (T1 ++ T2) (universe k cases)
+    /\ topk argsort k key pay fillp (chunks B cases) = map (slot_entry key pay fillp B) T1
+    /\ length T1 = k
+    /\ (forall a b, In a T1 -> In b T2 -> ext_le (slot_key key pay fillp B a) (slot_key key pay fillp B b)).
+Proof. exact @topk_structure. Qed.
+Print Assumptions C16_knn_structure.
+
+Theorem C16_knn_no_case_twice :
+  forall (C : Type) k (cases : list C) T1 T2,
+    Permutation (T1 ++ T2) (universe k cases) -> NoDup (slot_cases T1).
+Proof. exact @structure_nodup. Qed.
+Print Assumptions C16_knn_no_case_twice.
+
+(* gather_correct: dataset_gather at (i / B, i mod B) returns element i of the un-batched data; the fill index
+   gathers nothing *)
+Theorem C16_gather_correct :
+  forall (A : Type) B (l : list A) i, 1 <= B ->
+    dataset_gather (chunks B l) (Z.of_nat (i / B), Z.of_nat (i mod B)) = nth_error l i.
+Proof. exact @dataset_gather_correct. Qed.
+Print Assumptions C16_gather_correct.
+
+Theorem C16_gather_fill : forall (A : Type) (batches : list (list A)), dataset_gather batches fill_idx = None.
+Proof. exact @dataset_gather_fill. Qed.
+Print Assumptions C16_gather_fill.
+
+(* SimilarExamples.explain for one query (same_projection: queries and cases go through the same [proj]) *)
+Theorem C16_similar_distances :
+  forall argsort, argsort_ok argsort ->
+  forall dist proj (L : Type) k bs cases targets (labels : list L) q tq,
+    bs_ok' bs -> 1 <= length cases -> length targets = length cases ->
+    forall S, Sorted ext_le S -> Permutation S (true_keys dist proj cases targets q tq ++ repeat Inf k) ->
+      map (@ex_dist L) (similar_one argsort dist proj k bs cases targets labels q tq) = firstn k S.
+Proof. intros argsort H dist proj L k bs cases targets labels q tq H1 H2 H3 S HS HP.
+  exact (similar_distances argsort H dist proj k bs cases targets labels q tq H1 H2 H3 S (conj HS HP)). Qed.
+Print Assumptions C16_similar_distances.
+
+Theorem C16_similar_sorted :
+  forall argsort, argsort_ok argsort ->
+  forall dist proj (L : Type) k bs cases targets (labels : list L) q tq,
+    bs_ok' bs -> 1 <= length cases -> length targets = length cases ->
+    Sorted ext_le (map (@ex_dist L) (similar_one argsort dist proj k bs cases targets labels q tq))
+    /\ length (similar_one argsort dist proj k bs cases targets labels q tq) = k.
+Proof. exact similar_sorted. Qed.
+Print Assumptions C16_similar_sorted.
+
+(* k <= N: the k smallest true distances, all finite (no fill is returned) *)
+Theorem C16_similar_k_nearest :
+  forall argsort, argsort_ok argsort ->
+  forall dist proj (L : Type) k bs cases targets (labels : list L) q tq,
+    bs_ok' bs -> 1 <= length cases -> length targets = length cases -> k <= length cases ->
+    map (@ex_dist L) (similar_one argsort dist proj k bs cases targets labels q tq)
+    = firstn k (isort (true_keys dist proj cases targets q tq))
+    /\ Forall (fun d => is_fin d = true)
+              (map (@ex_dist L) (similar_one argsort dist proj k bs cases targets labels q tq)).
+Proof. exact similar_all_finite. Qed.
+Print Assumptions C16_similar_k_nearest.
+
+(* every returned example is the ORIGINAL (unprojected) case number i and its label, at index (i / B, i mod B),
+   and its distance is the true distance between the projected query and the projected case *)
+Theorem C16_similar_examples :
+  forall argsort, argsort_ok argsort ->
+  forall dist proj (L : Type) k bs cases targets (labels : list L) q tq,
+    bs_ok' bs -> 1 <= length cases -> length targets = length cases ->
+    forall e, In e (similar_one argsort dist proj k bs cases targets labels q tq) ->
+      (ex_dist e = Inf /\ ex_idx e = fill_idx /\ ex_case e = None /\ ex_label e = None)
+      \/ exists i c t,
+           nth_error cases i = Some c /\ nth_error targets i = Some t
+           /\ ex_idx e = (Z.of_nat (i / eff_batch bs (length cases)), Z.of_nat (i mod eff_batch bs (length cases)))
+           /\ i mod eff_batch bs (length cases) < eff_batch bs (length cases)
+           /\ ex_dist e = Fin (dist (proj q tq) (proj c t))
+           /\ ex_case e = Some c /\ ex_label e = nth_error labels i.
+Proof. exact similar_examples_spec. Qed.
+Print Assumptions C16_similar_examples.
+
+(* no unreturned case is closer than a returned one *)
+Theorem C16_similar_minimal :
+  forall argsort, argsort_ok argsort ->
+  forall dist proj (L : Type) k bs cases targets (labels : list L) q tq,
+    bs_ok' bs -> 1 <= length cases -> length targets = length cases ->
+    forall i c t, nth_error cases i = Some c -> nth_error targets i = Some t ->
+      (exists e, In e (similar_one argsort dist proj k bs cases targets labels q tq)
+                 /\ ex_idx e = (Z.of_nat (i / eff_batch bs (length cases)), Z.of_nat (i mod eff_batch bs (length cases))))
+      \/ (forall e, In e (similar_one argsort dist proj k bs cases targets labels q tq) ->
+                    ext_le (ex_dist e) (Fin (dist (proj q tq) (proj c t)))).
+Proof. exact similar_minimal_cases. Qed.
+Print Assumptions C16_similar_minimal.
+
+(* the returned distances do not depend on the batch size nor on the tie-breaking *)
+Theorem C16_similar_batch_invariant :
+  forall argsort argsort' dist proj (L : Type) k bs bs' cases targets (labels : list L) q tq,
+    argsort_ok argsort -> argsort_ok argsort' -> bs_ok' bs -> bs_ok' bs' -> 1 <= length cases ->
+    length targets = length cases ->
+    map (@ex_dist L) (similar_one argsort dist proj k bs cases targets labels q tq)
+    = map (@ex_dist L) (similar_one argsort' dist proj k bs' cases targets labels q tq).
+Proof. intros; apply similar_batch_invariant; assumption. Qed.
+Print Assumptions C16_similar_batch_invariant.
+
+(* non-vacuity: 5 one-dimensional points with a duplicate, batch size 2 (remainder batch), k = 3 > batch size,
+   Manhattan distance, query 1/2: the model returns distances 0, 0, 1/2 at indices (0,1), (1,1), (0,0) *)
+Example C16_nonvacuous :
+  bs_ok' (Some 2) /\
+  map (fun e : @example nat => (ex_dist e, ex_idx e, ex_case e, ex_label e))
+      (similar_one argsort_stable manhattan (fun x _ => x) 3 (Some 2)
+                   [[q 1 1]; [q 1 2]; [q 3 1]; [q 1 2]; [q (-2) 1]] [[]; []; []; []; []] [10; 11; 12; 13; 14]
+                   [q 1 2] [])
+  = [ (Fin (q 0 1), (0%Z, 1%Z), Some [q 1 2], Some 11);
+      (Fin (q 0 1), (1%Z, 1%Z), Some [q 1 2], Some 13);
+      (Fin (q 1 2), (0%Z, 0%Z), Some [q 1 1], Some 10) ].
+Proof. split; [cbn; lia | vm_compute; reflexivity]. Qed.
